@@ -182,6 +182,11 @@ impl<'a> Toks<'a> {
         self.toks.len() - self.pos
     }
 
+    /// The next token without consuming it.
+    pub fn peek(&self) -> Option<&'a str> {
+        self.toks.get(self.pos).copied()
+    }
+
     /// No trailing garbage.
     pub fn end(&self) -> PResult<()> {
         if self.remaining() == 0 {
